@@ -264,3 +264,9 @@ def run(ctx):
     ctx.guarded("C07.call", rule_call, ctx, repo)
     ctx.guarded("C07.ping", rule_ping, ctx, repo)
     ctx.guarded("C07.unsupported", rule_unsupported, ctx, repo, ctx.tier)
+    # C07.unsupported reads the parsed payload kind by kind ("no kind present -> unsupported -> receipt"): that a kind the
+    # peer did not send parses to None - and one it sent to an object - is the converter's top-level round trip (C10.top,
+    # scenarios peer / peer-empty), adopted
+    from . import c10
+    ctx.rule("C07.payload", "payload kinds absent on the wire parse to None (C10.top adopted)", floor=4)
+    ctx.adopt_from("C10", [(c10.rule_converter, ())], {"C10.top": "C07.payload"})
